@@ -76,8 +76,8 @@ def gen_spec(rng, idx, route=None):
         spec.update(shape=[n_il, n_xl, n_s], bits=bits, blockshape=list(bs))
         if route != 'numpy':
             spec['fmt'] = rng.choice([1, 5])
-            spec['il0'] = rng.choice([1, 1, 100, 2000])
-            spec['xl0'] = rng.choice([1, 20, 300])
+            spec['il0'] = rng.choice([1, 1, 100, 2000, -3])      # -3: line numbers cross zero
+            spec['xl0'] = rng.choice([1, 20, 300, -2])
             spec['il_step'] = rng.choice([1, 1, 2])
             spec['xl_step'] = rng.choice([1, 1, 3])
         if route == 'segy_irreg':
